@@ -261,6 +261,8 @@ pub struct FnInfo {
     /// the body can panic (`panic!`, `assert!`, `unwrap`, slice index, a call of such a function): result in `option`, None = panic
     /// (no fuel parameter; for a fuelled function None means fuel exhausted or a panic)
     pub partial: bool,
+    /// the definition is parametric in the width of usize (implicit `{U__ : Casts.UsizeW}`)
+    pub usize_w: bool,
     /// the panic sites of the translated body (a fuelled function with panic sites: None = fuel exhausted OR a panic)
     pub panic_sites: Vec<String>,
 }
